@@ -37,6 +37,14 @@ CLAIMED = {
   text='Coq theorems (Props/C13.v) about executable models of load\'s own logic: limit_rows = firstn, string strategies yield only strings, stripping touches only string cells with whitespace at an end (Python rule) and keeps keys and row count, wrappers apply in the order cast -> strip -> limit, duplicate headers are rejected unless de-duplication is requested and unique headers are kept, tuple/package loading selects descriptor/iterator pairs by one predicate in order; the full header-uniqueness claim is refuted on the faithful model by a vm_compute witness (known finding). A model of Python\'s csv reader state machine and QUOTE_MINIMAL writer is compared with the csv module on well-formed and malformed text. Correspondence by vm_compute for headers, wrappers and whole CSV files loaded by the real load(); direct oracle = independent csv.reader parse of the same file plus the documented rules; cast_strategy=schema with on_error policies checked by oracle.',
   note='Partial by design: tabulator\'s dialect sniffing and type inference are third-party heuristics outside the model (their deviations are recognised as known finding C13.tabulator_sniffer); the CSV round-trip theorem is validated by correspondence here (proof obligations listed in DESIGN.md); str.isspace modelled for the generated code points.',
   technique='Coq proof over executable model + refutation witness + vm_compute correspondence + direct oracle', ref='5/C13'),
+ 'C07': dict(
+  text='Coq theorems (Props/C07.v): the extended-JSON decode(encode v) = v for every value the encoding represents faithfully, at any nesting depth (nested induction; hook probing order modelled; reserved keys proved distinct by computation); the stream file format round-trips every resource and row in order including empty resources; for every run/delete history the model returns the first run\'s package on every run and executes the steps before the checkpoint exactly when no checkpoint exists. The microsecond loss of time/datetime is stated as a refutation lemma (known finding). Correspondence by vm_compute: ejson round trip on generated values of all claimed types and UTC offsets, blank-line structure of real stream files, upstream-executed flags of real histories (fresh and re-used Flow objects, two chained checkpoints, names containing the .active suffix); direct oracle: every run equals the first run, type-exact.',
+  note='Trusted: Coq kernel+vm_compute; Python scalar text codecs satisfy parse(print x)=x (hypotheses; exercised); rows compared as mappings (stream sorts keys); re-iterable sources; the model of a re-used Flow object is stateless after the fix: commits (checkpoint chain, load lists).',
+  technique='Coq proof (nested induction, history induction) + vm_compute correspondence + direct oracle + refutation lemma', ref='5/C07'),
+ 'C08': dict(
+  text='Coq theorems (Props/C08.v) over the operation trace of saving a checkpoint (mkdir, open-truncate .active, write+flush per line, buffered separators, close, rename) for any package: after any prefix of k operations short of the rename the final name does not exist; a checkpoint that exists after a crash is the complete stream; re-running from any crash state yields the complete checkpoint; the temporary name differs from the final one because the regenerated ACTIVE_SUFFIX is non-empty. Tie: the real operation sequence is recorded from the unchanged stream module (open/os wrapped in its namespace in a child process) and compared with the model; fault enumeration kills a child before every single file operation and raises at every row and at exhaustion, then inspects the directory and re-runs.',
+  note='Partial: rename atomicity and durability of flushed data across a process kill are OS facts (trusted); power loss out of scope. Kill points are exhaustive per package shape (0-3 resources, 0-5 rows quick; up to 120 rows thorough).',
+  technique='Coq proof over file-operation traces + operation-trace correspondence + exhaustive kill/fault enumeration on the real code', ref='5/C08'),
 }
 
 NOT_YET = 'check not built yet (work in progress; will be claimed once its Coq model, theorems and correspondence check exist)'
